@@ -244,9 +244,10 @@ def run(ctx, prog):
     for name, fnc in (('masa_get_name', c17.check_get_name), ('masa_set_array', c17.check_set_array), ('masa_get_array', c17.check_get_array)):
         f = wr.get(name)
         ctx.require(f is not None, 'extern "C" %s not found' % name)
-        mc = [c for c in calls(f.body) if (c.get('q') or '').startswith('MASA::')]
-        ctx.require(len(mc) >= 1, '%s calls no MASA:: function' % name)
-        ok, why = fnc(f, mc[0], flat_stmts(f.body))
+        E_, paths_ = c17.wrapper_eval(prog, f)
+        ret_paths = [(o, c17.flat(o.events)) for o in paths_ if o.kind != 'exit']
+        ctx.require(any(e[0] == 'call' for o, evs in ret_paths for e in evs), '%s calls no MASA:: function' % name)
+        ok, why = fnc(f, ret_paths)
         ctx.ob('C19.O5', name, ok, f.where, why, sample='%s: buffer discipline' % name)
     # every char*/double* parameter site is covered by a rule
     ptr_params = [(f.n, p['n']) for f in wr.values() for p in f.params if p['t'] in ('char *', 'double *', 'int *')]
